@@ -47,7 +47,7 @@ REFRESH = ('if (isNull OBJ) then {OBJ = "Land_Test" createVehicle [1,2,3]}; if (
            'if (count BIG != 20000) then {BIG = []; BIG resize 20000}; if (count HM != 2) then {HM = createHashMapFromArray [["a",1],[2,[3]]]}; '
            'if !("m1" in allMapMarkers) then {MK = createMarker ["m1", [0,0,0]]}; if (count DEEP != 1) then {DEEP = []; for "_i" from 1 to 60 do { DEEP = [DEEP] }};\n')
 
-CONFIG = 'class CfgTest { num = 1; txt = "t"; arr[] = {1,{2,3},"x"}; class Sub { a = 1; }; class Child : Sub { b = 2; }; }; class CfgEmpty {}; class CfgVehicles { class Land_Test { scope = 2; }; };'
+CONFIG = 'class CfgTest { num = 1; txt = "t"; arr[] = {1,{2,3},"x"}; class Sub { a = 1; }; class Child : Sub { b = 2; }; }; class CfgEmpty {}; class CfgDel : CfgTest { delete num; class Own {}; delete Sub; }; class CfgOnlyDel : CfgTest { delete txt; }; class CfgVehicles { class Land_Test { scope = 2; }; };'
 
 SCALAR = ["0", "-0", "1", "-1", "0.5", "2", "3", "20", "255", "1e10", "-1e10", "2147483648", "-2147483649", "3.4e38", "(1e38*10)", "(-1e38*10)", "(sqrt -1)", "1e-30"]
 SCALAR_Q = ["0", "1", "-1", "0.5", "1e10", "-1e10", "20", "-2147483649", "3.4e38", "(1e38*10)", "(sqrt -1)"]
@@ -61,7 +61,7 @@ OTHER = {
     "BOOL": ["true", "false"],
     "OBJECT": ["objNull", "OBJ", "UNIT", "(call {private _o = \"Land_Test\" createVehicle [0,0,0]; deleteVehicle _o; _o})"],
     "GROUP": ["grpNull", "GRP"],
-    "CONFIG": ["configNull", "configFile", "CFG", "CFGV", "CFGE", '(configFile >> "nope")'],
+    "CONFIG": ["configNull", "configFile", "CFG", "CFGV", "CFGE", '(configFile >> "nope")', '(configFile >> "CfgDel")', '(configFile >> "CfgOnlyDel")'],
     "NAMESPACE": ["missionNamespace", "uiNamespace"],
     "SIDE": ["west", "sideUnknown"],
     "TEXT": ['(text "a")', '(text "")'],
@@ -91,7 +91,9 @@ def arrays(reps, maxlen):
     return out
 
 
-ARRAY_FIXED = ["[nil]", "[[]]", "[1,\"a\"]", "[[1,2],[3]]", "[-1,5]", "[0,1e10]", "[200,2e9]", "BIG", "DEEP", "[1,2,3,4,5,6,7,8,9,10]",
+ARRAY_FIXED = [# matrix / vector shapes with one row or one cell that is not what the first row promises
+               "[[1,2],0]", "[[1],\"a\"]", "[[1,2],[3,nil]]", "[[1,\"x\"]]", "[[1],[2]]", "[[1,2]]", "[[1,0],[0,nil]]", "[1,[2]]", "[[1,2],[3,4]]", "[[1,2],nil]",
+               "[nil]", "[[]]", "[1,\"a\"]", "[[1,2],[3]]", "[-1,5]", "[0,1e10]", "[200,2e9]", "BIG", "DEEP", "[1,2,3,4,5,6,7,8,9,10]",
                "[[1,2,3],[4,5,6],[7,8,9]]", "[\"a\",\"b\",\"c\"]", "[[\"k\",1]]", "[OBJ, OBJ2]", "[0,0,0]", "[[0,0,0],[1,1,1]]", "[true,false]",
                "[{true},{false}]", "[1,[2,[3,[4]]]]", "[1e38*10, sqrt -1]"]
 
@@ -99,7 +101,8 @@ ARRAY_FIXED = ["[nil]", "[[]]", "[1,\"a\"]", "[[1,2],[3]]", "[-1,5]", "[0,1e10]"
 # well-formed argument arrays of the operators with long / nested formats, and every single-element deviation from them
 EXEMPLARS = [['"%99999999999"', "1"], ['"%1 %0 %2147483648 %"', "1"], ['"Land_Test"', "[0,0,0]", "[]", "0", '"NONE"'], ["[0,0,0]", "GRP", '""', "0.5", '"PRIVATE"'], ['"m2"', "[0,0,0]"], ['"m1"', "OBJ"],
              ['"iso_v"', "1"], ['"iso_v"', "1", "true"], ["0", "0", "0"], ["[0,0,0]", "[1,1,1]"], ['"%1 %2"', "1", '"b"'], ["[1,2]", "[3,4]"],
-             ['"_a"', '["_b", 1]', '["_c", 2, [0]]', '["_d", 3, [0], 1]'], ["OBJ", '"iso_v"'], ['[["a",1],["b",2]]'], ["0", "2"], ["[0,0,0]", '["All"]', "10"]]
+             ['"_a"', '["_b", 1]', '["_c", 2, [0]]', '["_d", 3, [0], 1]'], ["OBJ", '"iso_v"'], ['[["a",1],["b",2]]'], ["0", "2"], ["[0,0,0]", '["All"]', "10"],
+             ['(configFile >> "CfgDel")', '"true"', "true"], ['(configFile >> "CfgOnlyDel")', '"true"', "false"]]
 
 
 SCALAR_LIT = re.compile(r"^-?[0-9.]+$")
